@@ -257,6 +257,8 @@ template <class Ad> void mutators(const char* name, uint64_t seed, int n) {
   using Q = typename Ad::Q; using T = typename Ad::T; constexpr int N = Ad::N; std::mt19937_64 g(seed * 97 + N); long set_bad = 0, mut_bad = 0, ctor_bad = 0, cnt = 0, forms_tried = 0, forms_bad = 0; long double wit = 0;
   auto rnd = [&]() { T m = (T)(1.0L + (long double)(g() >> 11) / (long double)(1ULL << 53)); if (sizeof(T) > 8) m += (T)std::ldexp((long double)(g() & 2047), -63); int span = std::numeric_limits<T>::max_exponent - 2; return std::ldexp(m, (int)(g() % (unsigned)(2 * span)) - span) * ((g() & 1) ? 1 : -1); };
   for (int t = 0; t < n; t++) { T c[9], d[9]; for (int i = 0; i < N; i++) { c[i] = rnd(); d[i] = rnd(); }
+    // signed zeros: the new value compares EQUAL to the stored one and differs only in the sign bit of its zero components - it must still be stored bit for bit
+    if (t % 4 == 1) { int zi = (int)(g() % N); for (int i = 0; i < N; i++) { if (i == zi || (g() & 3) == 0) { c[i] = (g() & 1) ? (T)0 : -(T)0; d[i] = -c[i]; } else d[i] = c[i]; } }
     Q q = Ad::make(c); T got[9]; getc(q, got); for (int i = 0; i < N; i++) if (!biteq(got[i], c[i])) ctor_bad++;
     if constexpr (has_set<Q, T>::value) { Q src = Ad::make(d); q.SetValue(src.Value()); getc(q, got); for (int i = 0; i < N; i++) if (!biteq(got[i], d[i])) { if (!set_bad) wit = (long double)d[i]; set_bad++; } }
     if constexpr (has_mutable<Q, T>::value) { Q src = Ad::make(c); q.MutableValue() = src.Value(); getc(q, got); for (int i = 0; i < N; i++) if (!biteq(got[i], c[i])) mut_bad++; }
